@@ -104,7 +104,7 @@ class EvolvableMLP(EvolvableModule):
         self.output_vanish = output_vanish
         self.output_layernorm = output_layernorm
         self.init_layers = init_layers
-        self.hidden_size = hidden_size
+        self.hidden_size = list(hidden_size)
         self.noisy = noisy
         self.noise_std = noise_std
 
